@@ -744,6 +744,21 @@ func apiCases(quick bool) []protox.Case {
 	for _, b := range pullBodies {
 		cs = append(cs, mk("api", "/api/ctrl/start_relay_pull", "pull-url", clip(b), []byte(b), -1))
 	}
+	// pull URLs of every length: the client session serialises app, tcUrl and stream name into commands
+	// whose buffers grow by doubling (app part of 1..1100 bytes; stream part likewise for a subset)
+	for n := 1; n <= 1100; n++ {
+		if quick && n > 64 && n%128 > 48 && n%128 < 80 {
+			continue // quick: dense around every multiple of 128 (+-48), all of them thorough
+		}
+		for _, scheme := range []string{"rtmp", "rtsp"} {
+			b := fmt.Sprintf("{\"url\":\"%s://$W-origin:1935/%s/s\",\"stream_name\":\"s\"}", scheme, strings.Repeat("a", n))
+			cs = append(cs, mk("api", "/api/ctrl/start_relay_pull", "pull-url-length/app", fmt.Sprintf("%s app of %d bytes", scheme, n), []byte(b), -1))
+			if n%8 == 0 || n < 64 {
+				b = fmt.Sprintf("{\"url\":\"%s://$W-origin:1935/live/%s\",\"stream_name\":\"s\"}", scheme, strings.Repeat("s", n))
+				cs = append(cs, mk("api", "/api/ctrl/start_relay_pull", "pull-url-length/stream", fmt.Sprintf("%s stream of %d bytes", scheme, n), []byte(b), -1))
+			}
+		}
+	}
 	return cs
 }
 
